@@ -107,6 +107,14 @@ ReportsOK(pre, rec) ==
   /\ Clause("report_mds_grouping", \A e \in Entries(rec) : e.mds = e.own)
   /\ Clause("report_rest_announced", (pre.rest # rec.post.rest) => \E e \in Entries(rec) : ~In(e))
 
+\* state copies retained for periodic reports still show the values of the version they are labelled with
+StoreEntryOK(t, e) == IF e.k = "S" THEN t.S[e.h].present /\ t.S[e.h].sver = e.ver /\ t.S[e.h].tok = e.tok
+                      ELSE t.C[e.h].present /\ t.C[e.h].sver = e.ver /\ t.C[e.h].tok = e.tok
+StoreOK(rec) == Clause("store_truthful",
+                  \A i \in DOMAIN rec.store :
+                     (ToString(rec.store[i].mver) \in DOMAIN rec.truth) =>
+                        \A e \in Rng(rec.store[i].entries) : StoreEntryOK(rec.truth[ToString(rec.store[i].mver)], e))
+
 Quiet(rec) == /\ Clause("nosend", Len(rec.reports) = 0)
               /\ Clause("consumer_quiet", rec.cpost = Traces[tid][l].cpost)
 
@@ -126,7 +134,7 @@ Step(rec) ==
     [] OTHER -> Quiet(rec) /\ txpre' = IF rec.act \in {"Abort", "Commit"} THEN rec.post ELSE txpre
 
 TraceNext == /\ l < Len(Traces[tid])
-             /\ LET rec == Traces[tid][l + 1] IN Step(rec) /\ cur' = rec.post
+             /\ LET rec == Traces[tid][l + 1] IN Step(rec) /\ StoreOK(rec) /\ cur' = rec.post
              /\ l' = l + 1 /\ tid' = tid
 
 TraceSpec == TraceInit /\ [][TraceNext]_<<tid, l, cur, txpre>>
